@@ -61,7 +61,7 @@ def assume_concrete(it, st, vals):
                 for ch in '*,><':
                     if ch not in st.excl.get(a.name, ()): st.excl.setdefault(a.name, set()).add(ch)
                 st.nonempty.add(a.name)
-        st.assume(z != z3.StringVal('')); st.assume(z != z3.StringVal('.'))
+        st.assume(z != z3.StringVal('')); st.assume(z != z3.StringVal('.'))      # A-path-norm: the complement is the recorded finding C05-pathnorm
 
 def run(it, st, case):
     kind = case[0]
@@ -231,4 +231,6 @@ def reproduce_known(entry):
         back = Sid(path=p, config=w.get('config'))
         return bool(x) and back != x
     except Exception: return True
-def in_known_class(entry, inputs): return False
+def in_known_class(entry, inputs):
+    """C05-pathnorm: some field value of the Sid is '' or '.'"""
+    return isinstance(inputs, dict) and any(v in ('', '.') for v in (inputs.get('values') or []))
